@@ -4,7 +4,7 @@ CONSTANTS
   A = 4
   L = 2
   MaxLines = 1
-  Ks = {1, 2}
+  Ks = {1}
   Fmts = {"bc"}
   NFiles = {2}
   Lazy = {FALSE}
